@@ -18,6 +18,7 @@ import (
 	"errors"
 	"fmt"
 	"time"
+	"unicode/utf8"
 
 	"github.com/notaryproject/notation-core-go/signature"
 	nx509 "github.com/notaryproject/notation-core-go/x509"
@@ -126,6 +127,10 @@ func validateSignRequest(req *signature.SignRequest) error {
 		return err
 	}
 
+	if err := validateTexts(req); err != nil {
+		return err
+	}
+
 	if req.Signer == nil {
 		return &signature.InvalidSignRequestError{Msg: "signer is nil"}
 	}
@@ -135,6 +140,28 @@ func validateSignRequest(req *signature.SignRequest) error {
 	}
 
 	return validateSigningSchema(req.SigningScheme)
+}
+
+// validateTexts validates that the texts of the request which the envelope
+// carries are valid UTF-8. JSON and CBOR text strings are Unicode: JSON
+// encoding would silently replace the invalid bytes, and an envelope with an
+// invalid CBOR text string cannot be parsed.
+func validateTexts(req *signature.SignRequest) error {
+	if !utf8.ValidString(req.Payload.ContentType) {
+		return &signature.InvalidSignRequestError{Msg: "content type is not valid UTF-8"}
+	}
+	if !utf8.ValidString(req.SigningAgent) {
+		return &signature.InvalidSignRequestError{Msg: "signing agent is not valid UTF-8"}
+	}
+	for _, attr := range req.ExtendedSignedAttributes {
+		if key, ok := attr.Key.(string); ok && !utf8.ValidString(key) {
+			return &signature.InvalidSignRequestError{Msg: fmt.Sprintf("extended attribute key %q is not valid UTF-8", key)}
+		}
+		if value, ok := attr.Value.(string); ok && !utf8.ValidString(value) {
+			return &signature.InvalidSignRequestError{Msg: fmt.Sprintf("value of extended attribute %v is not valid UTF-8", attr.Key)}
+		}
+	}
+	return nil
 }
 
 // validateSigningSchema validates the schema.
